@@ -145,12 +145,16 @@ def bind_tunnel(chk, results):
     return d1 + d2 + d3
 
 
+BIND_CAP = 1500
+
+
 def _bind_half(chk, results, key, module, tag, groupfn, envfn, hs_up, hs_dn, out_side, tunw_side, raw=False):
     import json
     import os
     groups = {}
     skipped = 0
     have = False
+    nbound = 0
     for i, r in enumerate(results):
         if key in r:
             have = True
@@ -158,6 +162,11 @@ def _bind_half(chk, results, key, module, tag, groupfn, envfn, hs_up, hs_dn, out
         if not t:
             skipped += 1
             continue
+        if nbound >= BIND_CAP and i % 7:
+            # the binding is drift-only: beyond BIND_CAP executions per check every 7th one is still bound
+            skipped += 1
+            continue
+        nbound += 1
         groups.setdefault(groupfn(t), []).append(i)
     if not have:
         return []
